@@ -13,10 +13,10 @@
    mapping (the caller's, 2 global and at most 15 common ones).                                            *)
 From Coq Require Import List NArith Bool.
 From Delb.Base Require Import PyStr PyDict.
-From Delb.Gen Require Import GenNames GenNs.
+From Delb.Gen Require Import GenNames GenNs GenNsValidators.
 From Delb.Tree Require Import ATree.
 From Delb.Ns Require Import Namespaces NamespacesFacts Prefixes PrefixFacts.
-From Delb.Xml Require Import Plain PlainFacts.
+From Delb.Xml Require Import Plain PlainFacts RoundTrip.
 Import ListNotations.
 
 (* the generated loop bound is the one the statement speaks about *)
@@ -93,11 +93,19 @@ Proof.
     + split; vm_compute; reflexivity.
 Qed.
 
-(* the name hypothesis of C13_declarations_only_on_root is needed: the API accepts an attribute whose local
-   name is "xmlns", and it is written as a declaration (finding C13-attribute-named-xmlns) *)
-Theorem C13_attribute_named_xmlns_refuted : exists (pm : pmap) attrs k,
-  In k (dict_keys (generate_attributes_data pm attrs)) /\ is_decl_key k = true.
+(* the name hypothesis of C13_declarations_only_on_root is what the GENERATED validator TagAttributes._validate_name
+   (Gen/GenNsValidators.v) guarantees of every attribute the API creates *)
+Theorem C13_attribute_names_validated : forall ns l,
+  attribute_name_refused ns l = false -> l <> XMLNS_ /\ ns <> xmlns_ns.
+Proof. exact RoundTrip.attr_validator_ok. Qed.
+Print Assumptions C13_attribute_names_validated.
+
+(* regression (C13-attribute-named-xmlns): the validator refuses the witness, and the refusal is needed - an
+   attribute called xmlns would be written as a declaration *)
+Example C13_regression_attribute_named_xmlns :
+  attribute_name_refused [] XMLNS_ = true
+  /\ exists (pm : pmap) attrs k, In k (dict_keys (generate_attributes_data pm attrs)) /\ is_decl_key k = true.
 Proof.
+  split; [reflexivity|].
   exists [([], [])], [([], XMLNS_, [118%N])], XMLNS_. split; [left; reflexivity | reflexivity].
 Qed.
-Print Assumptions C13_attribute_named_xmlns_refuted.
